@@ -81,6 +81,18 @@ parser { "s"; loop { try { if n == 0 { s += [65]; } else { s += [66]; n = 0; } /
 ]
 
 
+# a program ending in an action-less fall-through into its final state (empty else clause / empty catch block)
+FEATURES += [
+    ("feat-final-else", [], """out int m = 0; hook h;
+parser { "a"; h(); case { "b" -> { m = 1; } else -> {} } }"""),
+    ("feat-final-catch", [], """out int m = 0; hook h;
+parser { "a"; h(); try { "bc"; m = 1; } catch {} }"""),
+]
+# machines with exactly 255 / 256 / 257 states (the width of the state member; the parked state of a failed end() is one more)
+for _n in (253, 254, 255):
+    FEATURES.append(("feat-states-%d" % (_n + 2), ["-feof-support"], 'out int m = 0; hook h;\nparser { "%s"; m = 1; h(); }' % ("ab" * (_n // 2) + "c" * (_n % 2))))
+
+
 def features():
     return [dict(label=l, src=s, argv=list(a), ast=None) for l, a, s in FEATURES]
 
